@@ -237,6 +237,10 @@ class Fn:
         b = self.blocks[bid]
         if b.get("noreturn"):
             return []
+        if b.get("_throws") is None:
+            b["_throws"] = any(e.get("k") == "throw" for e in b["ev"])
+        if b["_throws"]:
+            return []       # an exception leaves the function: not a normal exit
         return [(i, s) for i, s in enumerate(b.get("succ", [])) if s is not None]
 
     def reachable_blocks(self):
